@@ -31,10 +31,12 @@ def _tuple_arity_sites(prog):
     def is_call(v) -> bool:
         return isinstance(v, ast.Call)
 
-    def add(call_node, n, site):
+    def add(call_node, n, site, indirect=False):
         c = by_node.get(id(call_node))
         if c is None:
             return
+        if indirect and (c.how == "by-name" or c.how.startswith("dynamic")):
+            return                     # receiver of unknown type: the unpacking does not say which `meth` it constrains
         for t in c.targets:
             if t.name in ("__init__", "__new__"):
                 continue
@@ -47,16 +49,18 @@ def _tuple_arity_sites(prog):
                     and not any(isinstance(e, ast.Starred) for e in p.targets[0].elts):
                 n = len(p.targets[0].elts)
                 v = p.value
+                indirect = False
                 if isinstance(v, ast.Name):
                     v = resolve_local(fn, v, is_call) or v
+                    indirect = True
                 if isinstance(v, ast.Call):
-                    add(v, n, p)
+                    add(v, n, p, indirect)
             elif isinstance(p, ast.Subscript) and isinstance(p.ctx, ast.Load) and isinstance(p.slice, ast.Constant) \
                     and isinstance(p.slice.value, int) and p.slice.value >= 0 and isinstance(p.value, ast.Name):
                 v = resolve_local(fn, p.value, is_call)
                 if isinstance(v, ast.Call):
                     # res = f(...); res[k]: at least k + 1 components; 2 is the arity of the tree's (bool, int) results
-                    add(v, max(2, p.slice.value + 1), p)
+                    add(v, max(2, p.slice.value + 1), p, True)
     # the result of <rule>.run(context) in Registry.run_rules is unpacked into two: stands for every Primary.run
     rr = prog.fn("registry.py::Registry.run_rules")
     run_calls = [n for n in walk_fn(rr.node) if isinstance(n, ast.Call) and isinstance(n.func, ast.Attribute) and n.func.attr == "run"]
@@ -690,6 +694,29 @@ def _guards(fn: Fn, g):
                 return True
         return False
 
+    # names that (may) hold undecoded text (raw_peek): a `?` there can be the start of the trigraph `??/`, which pop()
+    # decodes to a backslash -- constants compared with raw look-ahead must exclude `?` as well
+    raw_names: Set[str] = set()
+    grew = True
+    while grew:
+        grew = False
+        for nm, bs in binds.items():
+            if nm in raw_names:
+                continue
+            for k, _, v, _ in bs:
+                if v is not None and any((isinstance(c, ast.Call) and isinstance(c.func, ast.Attribute) and c.func.attr == "raw_peek")
+                                         or (isinstance(c, ast.Name) and c.id in raw_names) for c in ast.walk(v)):
+                    raw_names.add(nm)
+                    grew = True
+                    break
+
+    def is_raw(e) -> bool:
+        return any((isinstance(c, ast.Call) and isinstance(c.func, ast.Attribute) and c.func.attr == "raw_peek")
+                   or (isinstance(c, ast.Name) and c.id in raw_names) for c in ast.walk(e))
+
+    def safe_const(look, const) -> bool:
+        return _const_without(fn, const, "\\", peeked) and (not is_raw(look) or _const_without(fn, const, "?", peeked))
+
     match_cache: Dict[int, bool] = {}
 
     def is_match_call(c) -> bool:
@@ -698,7 +725,8 @@ def _guards(fn: Fn, g):
         k = id(c)
         if k not in match_cache:
             rcs = _regex_of_call(fn, c)
-            ok = bool(rcs) and not any(_regex_may_match(rc.pattern, rc.flags, "\\") for rc in rcs)
+            ok = bool(rcs) and not any(_regex_may_match(rc.pattern, rc.flags, "\\") or _regex_may_match(rc.pattern, rc.flags, "?")
+                                       for rc in rcs)
             if ok:
                 subj = c.args[1] if (isinstance(c.func.value, ast.Name) and c.func.value.id == "re") and len(c.args) > 1 \
                     else (c.args[0] if c.args else None)
@@ -707,7 +735,9 @@ def _guards(fn: Fn, g):
                     and 1 <= len(c.args) <= 2 and not c.keywords and (len(c.args) == 1 or _is_none(c.args[1])) \
                     and mentions_peek(c.args[0]):
                 tabs = const_values(fn, c.func.value)
+                raw = is_raw(c.args[0])
                 ok = bool(tabs) and all(isinstance(t, dict) and t and all(isinstance(k_, str) and "\\" not in k_ and v_
+                                                                        and not (raw and "?" in k_)
                                                                         for k_, v_ in t.items()) for t in tabs)
             match_cache[k] = ok
         return match_cache[k]
@@ -815,8 +845,7 @@ def _guards(fn: Fn, g):
                 pos = isinstance(op, (ast.Is, ast.Eq))
                 if isinstance(op, (ast.Is, ast.Eq, ast.IsNot, ast.NotEq)):
                     return "T" if pos == r.value else "F"
-            ok = (mentions_peek(l) and _const_without(fn, r, "\\", peeked)) or \
-                 (mentions_peek(r) and _const_without(fn, l, "\\", peeked))
+            ok = (mentions_peek(l) and safe_const(l, r)) or (mentions_peek(r) and safe_const(r, l))
             if ok and not names_fresh(e):
                 ok = False
             if ok and isinstance(op, (ast.In, ast.Eq)):
@@ -825,7 +854,7 @@ def _guards(fn: Fn, g):
                 return "F"
             return None
         if isinstance(e, ast.Call) and isinstance(e.func, ast.Attribute) and e.func.attr in ("startswith", "endswith") \
-                and mentions_peek(e.func.value) and e.args and _const_without(fn, e.args[0], "\\", peeked) and names_fresh(e):
+                and mentions_peek(e.func.value) and e.args and safe_const(e.func.value, e.args[0]) and names_fresh(e):
             return "T"
         if isinstance(e, ast.Call) and isinstance(e.func, ast.Name) and e.func.id == "any" and len(e.args) == 1 \
                 and isinstance(e.args[0], (ast.GeneratorExp, ast.ListComp)):
@@ -1074,9 +1103,21 @@ def _alias_calls(prog, cg):
     from ..calls import Call as CGCall
     from ..dataflow import resolve_local, is_path
     out = []
+    resolved = {id(c.node) for c in cg.calls if c.targets}
+    parsers = None
     for fn in prog.fns:
         local = None
         for n in walk_fn(fn.node):
+            if isinstance(n, ast.Call) and id(n) not in resolved and fn.cls is not None and fn.cls.name == "Lexer":
+                # self.parsers[index](self) / (a local bound to an element of self.parsers)(self): any sub-parser
+                f = n.func
+                if isinstance(f, ast.Name):
+                    f = resolve_local(fn, f, lambda v: isinstance(v, ast.Subscript)) or f
+                if isinstance(f, ast.Subscript) and isinstance(f.value, ast.Attribute) and f.value.attr == "parsers":
+                    if parsers is None:
+                        parsers = lexer_parsers(prog)
+                    out.append(CGCall(fn, n, list(parsers), "alias:parsers"))
+                    continue
             if not (isinstance(n, ast.Call) and isinstance(n.func, ast.Name)):
                 continue
             if local is None:
@@ -1921,6 +1962,30 @@ def _positive_count(fn: Fn, g, e, at_node, _seen=None) -> bool:
         elif dn.kind == "stmt" and isinstance(a, ast.Assign) and len(a.targets) == 1 and isinstance(a.targets[0], ast.Name):
             if not _positive_count(fn, g, a.value, d, seen):
                 return False
+        elif dn.kind == "stmt" and isinstance(a, ast.Assign) and len(a.targets) == 1 \
+                and isinstance(a.targets[0], (ast.Tuple, ast.List)) and isinstance(a.value, (ast.Tuple, ast.List)) \
+                and len(a.targets[0].elts) == len(a.value.elts) \
+                and all(isinstance(x, ast.Name) for x in a.targets[0].elts):
+            # ret, jump = False, 0   (the "nothing matched" default next to the run_rules result)
+            names = [x.id for x in a.targets[0].elts]
+            mine = a.value.elts[names.index(e.id)]
+            if _positive_count(fn, g, mine, d, seen):
+                continue
+            falsy = {nm for nm, v in zip(names, a.value.elts)
+                     if nm != e.id and isinstance(v, ast.Constant) and not v.value}
+            tests = {}
+            for tn in g.nodes:
+                if tn.kind == "test" and tn.ast is not None:
+                    sd = _truthy_side(tn.ast, falsy)
+                    if sd is not None:
+                        tests[tn.id] = sd
+            # this definition only reaches the pop through a successful truth test of a companion it set to False:
+            # infeasible, unless the companion is set again on the way without the count being set with it
+            redefs = {n_.id for n_ in g.nodes if n_.id != d and n_.kind == "stmt" and isinstance(n_.ast, (ast.Assign, ast.AugAssign))
+                      and (set(_tnames(n_.ast.targets[0] if isinstance(n_.ast, ast.Assign) else n_.ast.target)) & falsy)
+                      and e.id not in _tnames(n_.ast.targets[0] if isinstance(n_.ast, ast.Assign) else n_.ast.target)}
+            if not falsy or not tests or redefs or not _only_through(g, d, at_node, tests):
+                return False
         elif dn.kind == "stmt" and isinstance(a, ast.AnnAssign) and isinstance(a.target, ast.Name) and a.value is not None:
             if not _positive_count(fn, g, a.value, d, seen):
                 return False
@@ -2089,13 +2154,36 @@ def rule_progress(run, prog):
         pnodes = {_cfg_node_of_expr(gg, p) for p in _pop_sites(fn)}
         pnodes.discard(None)
         bad = []
+        no_pop = gg.reachable(gg.entry, avoid=pnodes)
+        RDl = None
         for n in walk_fn(fn.node):
             if isinstance(n, ast.Return) and n.value is not None and not (isinstance(n.value, ast.Constant) and n.value.value is None):
                 rid = gg.nid(n)
                 if rid in pnodes:
                     continue
-                if rid in gg.reachable(gg.entry, avoid=pnodes):
-                    bad.append(n)
+                if rid not in no_pop:
+                    continue
+                if isinstance(n.value, ast.Name):
+                    # single-exit form: the token is what the reaching definitions of the name built; a definition
+                    # `name = None` returns no token, any other must have a pop between the entry and the return
+                    if RDl is None:
+                        from ..dataflow import reaching_definitions
+                        RDl = reaching_definitions(gg, fn.params)
+                    defs = RDl.get(rid, {}).get(n.value.id)
+                    if defs and all(d >= 0 for d in defs):
+                        offending = False
+                        for d in defs:
+                            a = gg.nodes[d].ast
+                            if gg.nodes[d].kind == "stmt" and isinstance(a, ast.Assign) and isinstance(a.value, ast.Constant) \
+                                    and a.value.value is None:
+                                continue
+                            if d in pnodes:
+                                continue
+                            if d in no_pop and (d == rid or gg.can_reach(d, rid, avoid=pnodes)):
+                                offending = True
+                        if not offending:
+                            continue
+                bad.append(n)
         run.ob("R-5.5", f"{fn.key}::pop-before-token", not bad,
                "a sub-parser can return a token without having consumed any character: the tokenizer would not advance",
                bad[0] if bad else fn.node)
@@ -2121,8 +2209,22 @@ def rule_progress(run, prog):
         t = gg.nid(w.test)
         firsts = [m for m, lab in gg.succ[t] if lab == "T"]
         stuck = any(m == t or flag_can_reach(gg, gnt, m, t, avoid=adv, follow_exc=False) for m in firsts if m not in adv)
+        how = "advances"
+        if stuck:
+            # not a scan of the source: a loop bounded by a counter that every iteration moves (e.g. an index into
+            # the table of sub-parsers) terminates whatever the position does
+            mono = _monotone_vars(w)
+            for v in sorted(mono):
+                if _bounding_conjunct(w.test, {v: mono[v]}) is None:
+                    continue
+                steps = {gg.nid(n) for n in ast.walk(w) if isinstance(n, (ast.AugAssign, ast.Assign))
+                         and v in _tnames(n.target if isinstance(n, ast.AugAssign) else n.targets[0])} - {None}
+                if steps and not any(m == t or gg.can_reach(m, t, avoid=steps, follow_exc=False) for m in firsts if m not in steps):
+                    stuck = False
+                    how = f"bounded by {v}"
+                    break
         run.ob("R-5.5", f"{gnt.key}::while[{text(w.test, 30)}]::advances", not stuck,
-               "a loop of get_next_token can iterate without advancing the source position", w)
+               "a loop of get_next_token can iterate without advancing the source position", w, how=how)
     # no self-recursion left in get_next_token (one frame per bad lexeme)
     rec = [n for n in walk_fn(gnt.node) if isinstance(n, ast.Call) and text(n.func) == "self.get_next_token"]
     run.ob("R-5.5", f"{gnt.key}::iterative", not rec, "get_next_token recurses once per bad lexeme", rec[0] if rec else gnt.node)
@@ -2346,11 +2448,17 @@ def _is_pop(e) -> bool:
         and isinstance(e.func.value, ast.Name) and e.func.value.id == "self"
 
 
-def _times(popcall) -> int:
+def _times(popcall):
+    """Number of characters popped: an int, or ("sym", <text>) for a width held in a variable (compared by spelling
+    with the width of the guarding look-ahead), or -1."""
     for k in popcall.keywords:
-        if k.arg == "times" and isinstance(k.value, ast.Constant):
-            return int(k.value.value)
-    return 1 if not popcall.keywords else -1
+        if k.arg == "times":
+            if isinstance(k.value, ast.Constant):
+                return int(k.value.value)
+            if isinstance(k.value, ast.Name):
+                return ("sym", k.value.id)
+            return -1
+    return 1 if not any(k.arg == "times" for k in popcall.keywords) and not popcall.args else -1
 
 
 def _enclosing_true_conjuncts(at):
@@ -2473,8 +2581,14 @@ def expr_value_set(fn: Fn, e, at, tables, _depth=0) -> Optional[Set[str]]:
 def popped_value_set(fn: Fn, popcall, at, tables) -> Optional[Set[str]]:
     """What `self.pop(times=k)` can return at *at*, from guards on the look-ahead of the same k characters."""
     k = _times(popcall)
-    if k < 1:
+    if isinstance(k, int) and k < 1:
         return None
+    if isinstance(k, tuple):
+        # the width variable must not change between the look-ahead and the pop: only loop variables / single assignments
+        bs = _all_bindings(fn).get(k[1], [])
+        if not bs or any(b[0] not in ("for", "assign") for b in bs) or sum(1 for b in bs if b[0] == "assign") > 1 \
+                or (any(b[0] == "for" for b in bs) and any(b[0] == "assign" for b in bs)):
+            return None
     cons: List[Set[str]] = []
     peek_names = {}          # name -> k for names bound from self.peek(times=k) / raw_peek(collect=k)
     for n in walk_fn(fn.node):
@@ -2500,9 +2614,27 @@ def popped_value_set(fn: Fn, popcall, at, tables) -> Optional[Set[str]]:
                 and isinstance(n.value, ast.Name) and n.value.id in peek_names and n.targets[0].elts \
                 and isinstance(n.targets[0].elts[0], ast.Name):
             peek_names[n.targets[0].elts[0].id] = peek_names[n.value.id]
+    whole = {}               # name -> k for names bound to the whole (text, size) result of self.peek(times=k)
+    for n in walk_fn(fn.node):
+        if isinstance(n, ast.Assign) and len(n.targets) == 1 and isinstance(n.targets[0], ast.Name):
+            kk = _lookahead_len(n.value)
+            if kk is not None and isinstance(n.value, ast.Call) and n.value.func.attr == "peek":
+                whole[n.targets[0].id] = kk
+        elif isinstance(n, ast.NamedExpr):
+            kk = _lookahead_len(n.value)
+            if kk is not None and isinstance(n.value, ast.Call) and n.value.func.attr == "peek":
+                whole[n.target.id] = kk
+
+    def first_of_whole(x):
+        return isinstance(x, ast.Subscript) and isinstance(x.value, ast.Name) and x.value.id in whole \
+            and isinstance(x.slice, ast.Constant) and x.slice.value == 0 and whole[x.value.id] == k
     for c in _enclosing_true_conjuncts(at):
         if isinstance(c, ast.Compare) and len(c.ops) == 1:
             L, op, R = c.left, c.ops[0], c.comparators[0]
+            if first_of_whole(L) and isinstance(op, ast.In):
+                s = _as_set(fn, R, tables)
+                if s is not None and (k == 1 or not isinstance(fold_in_fn(R, fn, default=None), str)):
+                    cons.append(s)
             if _lookahead_len(L) == k and isinstance(op, ast.In):
                 s = _as_set(fn, R, tables)
                 if s is not None and (k == 1 or not isinstance(fold_in_fn(R, fn, default=None), str)):
@@ -2539,6 +2671,8 @@ def _lookahead_len(e) -> Optional[int]:
             if kw.arg in ("times", "collect"):
                 if isinstance(kw.value, ast.Constant) and isinstance(kw.value.value, int):
                     k = kw.value.value
+                elif isinstance(kw.value, ast.Name):
+                    k = ("sym", kw.value.id)
                 else:
                     return None
             elif kw.arg == "offset":
@@ -2567,8 +2701,24 @@ def _needs_str(fn, node, depth=0):
         return p
     if isinstance(p, ast.Compare) and len(p.ops) == 1 and isinstance(p.ops[0], (ast.In, ast.NotIn)) and p.left is not node:
         return p                                   # `x in value`
-    if isinstance(p, ast.Assign) and p.value is node and len(p.targets) == 1 and isinstance(p.targets[0], ast.Name) and depth < 2:
+    name = None
+    asg = p
+    if isinstance(p, ast.Assign) and p.value is node and len(p.targets) == 1 and isinstance(p.targets[0], ast.Name) and depth < 3:
         name = p.targets[0].id
+    elif isinstance(p, ast.NamedExpr) and p.value is node and depth < 3:
+        name = p.target.id                                   # (text := tok.value)
+        r = _needs_str(fn, p, depth + 1)                     # ... and the walrus expression itself is used in place
+        if r is not None:
+            return r
+    elif isinstance(p, ast.Tuple) and isinstance(parent(p), ast.Assign) and parent(p).value is p and depth < 3 \
+            and len(parent(p).targets) == 1 and isinstance(parent(p).targets[0], ast.Tuple) \
+            and len(parent(p).targets[0].elts) == len(p.elts):
+        tgt = parent(p).targets[0].elts[[i for i, e in enumerate(p.elts) if e is node][0]]
+        if isinstance(tgt, ast.Name):                        # kind, text = tok.type, tok.value
+            name = tgt.id
+            asg = parent(p)
+    if name is not None:
+        p = asg
         for n in walk_fn(fn.node):
             if isinstance(n, ast.Name) and n.id == name and isinstance(n.ctx, ast.Load) and (n.lineno, n.col_offset) > (p.lineno, p.col_offset):
                 r = _needs_str(fn, n, depth + 1)
@@ -2580,7 +2730,7 @@ def _needs_str(fn, node, depth=0):
 def rule_value_nullability(run, prog):
     run.rule("R-5.8", "nullability of token text: Token.value is None for keyword and punctuator tokens; wherever a rule uses "
              "it as a string (method call, iteration, slicing, concatenation, len) the token's kinds - from guards valid on "
-             "every CFG path or the re-validated precondition table - are value-bearing kinds only", floor=15)
+             "every CFG path or the re-validated precondition table - are value-bearing kinds only", floor=11)
     from .c17 import all_reads
     n = 0
     for r in all_reads(prog):
@@ -2597,7 +2747,7 @@ def rule_value_nullability(run, prog):
                 f"None: AttributeError/TypeError traceback" if r.kinds is not None else
                 f"`{text(use, 60)}` uses the token text as a string but nothing bounds the token's kind ({r.kind_source})"),
                r.node, kinds=(sorted(r.kinds)[:8] if r.kinds is not None else "unknown"), kind_source=r.kind_source)
-    run.require(n >= 15, f"only {n} string uses of token text found (floor 15)")
+    run.require(n >= 11, f"only {n} string uses of token text found (floor 11)")
 
 
 # =========================================================================== R-5.9
@@ -2827,3 +2977,5 @@ def check(run, prog):
     rule_progress(run, prog)
     rule_helpers(run, prog)
     rule_dictkeys(run, prog)
+    from .c05_regex import rule_regex_ambiguity
+    rule_regex_ambiguity(run, prog)          # R-5.10
